@@ -215,6 +215,8 @@ type plainObs struct {
 	pathDual string
 	lookup   string
 	cycles   string
+	revCyc   string // GetCycles() of the reversed graph
+	rev2Cyc  string // ... of the graph reversed twice
 	mutated  bool
 }
 
@@ -417,6 +419,8 @@ func observePlain(pm *openfgav1.AuthorizationModel, labels []string) (o plainObs
 		}
 	}
 	o.cycles = cycleFlags(g.GetCycles())
+	o.revCyc = cycleFlags(rev.GetCycles())
+	o.rev2Cyc = cycleFlags(rev2.GetCycles())
 	return o
 }
 
@@ -589,6 +593,19 @@ func (c *plainCtx) check(cfg simrt.Config) ([]mismatch, simrt.Stats, string) {
 	}
 	if o.cycles != "" && acyclic && o.cycles != "{false false}" {
 		add("plain.cycles", "acyclic model reports cycles: %s", o.cycles)
+	}
+	// a reversed graph is a graph of the same model: a cycle of pure computed
+	// usersets is one in either direction, and an acyclic model stays acyclic
+	for name, cyc := range map[string]string{"reversed": o.revCyc, "twice reversed": o.rev2Cyc} {
+		if cyc == "" {
+			continue
+		}
+		if cc && !strings.HasPrefix(cyc, "{true") {
+			add("plain.cycles_reversed", "the %s graph does not report the cycle of pure computed usersets as compile-time cycle: %s", name, cyc)
+		}
+		if acyclic && cyc != "{false false}" {
+			add("plain.cycles_reversed", "the %s graph of an acyclic model reports cycles: %s", name, cyc)
+		}
 	}
 	if o.cycles != c.canon.cycles {
 		add("plain.cycles_unstable", "GetCycles() %s, canonical build %s", o.cycles, c.canon.cycles)
